@@ -150,6 +150,15 @@ pub fn corpus(idx: usize, seed: u64, w: &mut dyn Write, thorough: bool) -> Optio
             g.battery_forge();
             g.step(&x(&h1, vec![], MMsg::RC { sender: va("bobby"), amount: 5, inner: Inner::AB { id: 3 } }));
             g.step(&x(&h2, vec![], MMsg::RN { sender: va("alice"), token_id: "t001".into(), inner: Inner::AL { id: 5 } }));
+            // the junk token's Transfer fails: bobby's bucket (10 ujunox + junk) is frozen
+            g.h.sim.set_hostile_fails(0, true);
+            let init = g.h.resync();
+            g.emit(&init);
+            g.step(&x("bobby", vec![], MMsg::RB { id: 3 }));
+            g.battery_faults();
+            g.h.sim.set_hostile_fails(0, false);
+            let init = g.h.resync();
+            g.emit(&init);
             g.step(&x("bobby", vec![], MMsg::RB { id: 3 }));
             // the same (collection, token id) can never be recorded twice, whoever calls the hook:
             // a contract's own listing 60 and bucket 61, topped up twice with the same token id
